@@ -415,9 +415,14 @@ impl StaticMetadata {
         let default_instance_location: UserLocation =
             variable_axes.iter().map(|a| (a.tag, a.default)).collect();
 
+        // ids the source's own name records already use must not be handed out again
+        let used_name_ids: HashSet<NameId> = names.keys().map(|k| k.name_id).collect();
         let mut register_if_new = |name: &str| {
             reusable_names.entry(name.to_owned()).or_insert_with(|| {
                 name_id_gen += 1;
+                while used_name_ids.contains(&name_id_gen.into()) {
+                    name_id_gen += 1;
+                }
                 NameKey::new(name_id_gen.into(), name)
             });
         };
@@ -707,6 +712,52 @@ mod tests {
             reverse_names.get("Fam").unwrap().iter().next().unwrap(),
             &NameId::FAMILY_NAME
         );
+    }
+
+    #[test]
+    fn generated_name_ids_skip_ids_used_by_source_name_records() {
+        // the source brings its own records 256 and 257; the axis name and the instance name must
+        // get ids that are still free, whatever order the map yields the records in
+        for _ in 0..16 {
+            let names: HashMap<_, _> = [
+                (NameId::FAMILY_NAME, "Fam"),
+                (NameId::SUBFAMILY_NAME, "Regular"),
+                (NameId::new(256), "Something"),
+                (NameId::new(257), "Else"),
+            ]
+            .into_iter()
+            .map(|(id, s)| (NameKey::new(id, s), s.to_string()))
+            .collect();
+            let axis = Axis::for_test("wght");
+            let instance = NamedInstance {
+                name: "Bold".to_string(),
+                postscript_name: None,
+                location: vec![(WGHT, axis.max)].into(),
+            };
+            let static_metadata = StaticMetadata::new(
+                1000,
+                names,
+                vec![axis],
+                vec![instance],
+                Default::default(),
+                Default::default(),
+                Default::default(),
+                None,
+                false,
+            )
+            .unwrap();
+            let mut by_id: Vec<(u16, String)> = static_metadata
+                .names
+                .iter()
+                .map(|(key, s)| (key.name_id.to_u16(), s.clone()))
+                .filter(|(id, _)| *id >= 256)
+                .collect();
+            by_id.sort();
+            let ids: Vec<u16> = by_id.iter().map(|(id, _)| *id).collect();
+            assert_eq!(ids, vec![256, 257, 258, 259], "{by_id:?}");
+            assert_eq!(by_id[0].1, "Something");
+            assert_eq!(by_id[1].1, "Else");
+        }
     }
 
     #[test]
